@@ -215,28 +215,37 @@ def _arg_name(node):
 
 def _node_matches_argspec(node, func):
   """Returns True is node fits the argspec of func."""
-  # (dime10) replacement for tf_inspect.getfullargspec
-  arg_spec = inspect.getfullargspec(func)
+  # The parameters are read from the code object: wrappers can change what
+  # inspect reports for the function (__signature__, __wrapped__), but not the
+  # code that the lambda expression was compiled to.
+  code = func.__code__
+  names = code.co_varnames
+  num_args = code.co_argcount
+  num_kwonlyargs = code.co_kwonlyargcount
 
-  # Note: getfullargspec lists positional-only parameters as part of args.
+  # Note: co_argcount includes the positional-only parameters.
   node_args = tuple(
       _arg_name(arg) for arg in node.args.posonlyargs + node.args.args)
-  if node_args != tuple(arg_spec.args):
+  if node_args != tuple(names[:num_args]):
     return False
 
-  code = getattr(func, '__code__', None)
-  if (code is not None and
-      len(node.args.posonlyargs) != code.co_posonlyargcount):
-    return False
-
-  if arg_spec.varargs != _arg_name(node.args.vararg):
-    return False
-
-  if arg_spec.varkw != _arg_name(node.args.kwarg):
+  if len(node.args.posonlyargs) != code.co_posonlyargcount:
     return False
 
   node_kwonlyargs = tuple(_arg_name(arg) for arg in node.args.kwonlyargs)
-  if node_kwonlyargs != tuple(arg_spec.kwonlyargs):
+  if node_kwonlyargs != tuple(names[num_args:num_args + num_kwonlyargs]):
+    return False
+
+  pos = num_args + num_kwonlyargs
+  varargs = None
+  if code.co_flags & inspect.CO_VARARGS:
+    varargs = names[pos]
+    pos += 1
+  if varargs != _arg_name(node.args.vararg):
+    return False
+
+  varkw = names[pos] if code.co_flags & inspect.CO_VARKEYWORDS else None
+  if varkw != _arg_name(node.args.kwarg):
     return False
 
   return True
